@@ -355,7 +355,38 @@ func (p *queryPlan) processClause(ctx context.Context, cls *semantic.GraphClause
 		if len(tbl.Bindings()) == 0 {
 			return false, nil
 		}
-		return false, p.tbl.DotProduct(tbl)
+		shared := false
+		for _, k := range tbl.Bindings() {
+			if p.tbl.HasBinding(k) {
+				shared = true
+				break
+			}
+		}
+		if !shared {
+			return false, p.tbl.DotProduct(tbl)
+		}
+		// Some alias of the clause is also a binding of the previous clauses.
+		// Only the rows that agree with the value of the alias are kept.
+		nulls := make(table.Row)
+		for _, k := range tbl.Bindings() {
+			nulls[k] = &table.Cell{}
+		}
+		rws := p.tbl.Rows()
+		p.tbl.Truncate()
+		p.tbl.AddBindings(tbl.Bindings())
+		for _, r := range rws {
+			joined := false
+			for _, nr := range tbl.Rows() {
+				if compatibleRows(r, nr) {
+					p.tbl.AddRow(table.MergeRows([]table.Row{r, nr}))
+					joined = true
+				}
+			}
+			if !joined && cls.Optional {
+				p.tbl.AddRow(table.MergeRows([]table.Row{r, nulls}))
+			}
+		}
+		return false, nil
 	}
 
 	exist, total := 0, 0
